@@ -26,6 +26,27 @@ def main(tier):
     for aged in (0, 1, 7, 40):
         items.append(dict(name=f"bundled2@{aged}", text="{ ReV = clo32(RsV) + clo32(RtV); RddV = clz64(RuuV) - clo64(RvvV); }", aged=aged, vkey="bundled2"))
         items.append(dict(name=f"bundled3@{aged}", text="{ int32_t a = RsV; ReV = fbrev(clz32(a)) + conv_round(a, uiV & 15) + revbit32(a); RddV = a; }", exports=[("a", "int32_t")], aged=aged, vkey="bundled3"))
+    # directed: callee locals / loop counters with the caller's names, returns that are not in tail position (listed findings
+    # callee_locals_shared, return_does_not_leave) and their well-behaved neighbours
+    def D(name, text, subs, ex=()):
+        ss, cs = [], {}
+        for sdef in subs:
+            a, b = gen.sub_item(*sdef)
+            ss.append(a)
+            cs.update(b)
+        items.append(dict(name="dir;" + name, text=text, subs=ss, c_subs=cs, exports=list(ex), vkey="dir;" + name))
+
+    a32 = [("a", "int32_t")]
+    D("samelocal", "{ int32_t a = RsV; int32_t r = d1(RtV); RdV = a + r; }", [("d1", "int32_t", ["int32_t p"], "{ int32_t a = p * 2; return a + 1; }")], a32)
+    D("sameparam", "{ int32_t p = RsV; int32_t r = d2(RtV); RdV = p + r; }", [("d2", "int32_t", ["int32_t p"], "{ return p + 1; }")], [("p", "int32_t")])
+    D("loopvar", "{ int32_t s = 0; for (i = 0; i < 3; i++) { s += d3(i); } RdV = s; ReV = i; }", [("d3", "int32_t", ["int32_t p"], "{ int32_t d3_a = 0; for (i = 0; i < 4; i++) { d3_a += p; } return d3_a; }")])
+    D("loopvar_ok", "{ int32_t s = 0; for (i = 0; i < 3; i++) { s += d4(i); } RdV = s; ReV = i; }", [("d4", "int32_t", ["int32_t p"], "{ int32_t d4_a = 0; for (j = 0; j < 4; j++) { d4_a += p; } return d4_a; }")])
+    D("twocallees", "{ RdV = d5(RsV) + d6(RtV); }", [("d5", "int32_t", ["int32_t p"], "{ int32_t t = p + 1; return t * 2; }"), ("d6", "int32_t", ["int32_t p"], "{ int32_t t = p - 1; return t * 3; }")])
+    D("earlyret", "{ RdV = d7(RsV); }", [("d7", "int32_t", ["int32_t p"], "{ if (p > 5) { return 1; } if (p > 2) { return 2; } return 3; }")])
+    D("earlyret_loop", "{ RdV = d8(RsV & 7); }", [("d8", "int32_t", ["int32_t p"], "{ for (j = 0; j < 4; j++) { if (j == p) { return j + 10; } } return 0; }")])
+    D("tailret", "{ RdV = d9(RsV); }", [("d9", "int32_t", ["int32_t p"], "{ if (p > 5) { return 1; } else { if (p > 2) { return 2; } else { return 3; } } }")])
+    D("retcmp", "{ RdV = d10(RsV) + 1; }", [("d10", "int32_t", ["int32_t p"], "{ return p > 3; }")])
+    D("argswap", "{ int32_t a = RsV; int32_t b = RtV; RdV = d11(b, a); }", [("d11", "int32_t", ["int32_t a", "int32_t b"], "{ return a - b; }")], a32)
     for it in items:
         it["states_fn"] = c05.trip_states
     fam.replay_witnesses()
@@ -74,6 +95,13 @@ def main(tier):
             for c in cs:
                 iso_checked += 1
                 clash = reach_writes(c, set()) & names
+                if clash and not any(x.startswith("h_tmp") for x in clash):
+                    # source-level locals of a callee that the caller's source uses too: the listed finding, if the sources say so
+                    from .. import findings
+
+                    mech, shared = findings.routine_signature(p.src, [tuple(x) for x in p.extra["item"].get("subs", [])])
+                    if mech == "callee_locals_shared" and clash <= set(shared) and run.known(mech, {"source": p.src, "callee": c, "names": sorted(clash)}):
+                        continue
                 if clash:
                     run.violation(f"callee {c} (or a routine it calls) writes the local(s) {sorted(clash)} that {fname} uses: `{p.src[:100]}`",
                                   {"kind": "isolation", "frame": fname, "callee": c, "names": sorted(clash), "text": p.src, "subs": p.extra["item"].get("subs", []), "aged": p.extra["item"].get("aged", 0)},
@@ -97,7 +125,7 @@ def main(tier):
         "generated_subroutines": sum(len(it.get("subs", ())) for it in kept), "aged_variants": sorted({it.get("aged", 0) for it in kept}),
     })
     run.assumptions = ["callee bodies are inlined by name in the caller's flat local namespace, pure parameters bound by name (what the plugin's C functions do)",
-                       "generated sub-routines name their locals with the routine's name as prefix, as the bundled ones do"]
+                       "randomly generated sub-routines name their locals with the routine's name as prefix and return in tail position only (the directed programs dir;* cover the listed findings about shared local names and early returns)"]
     run.finish(cov, hard_inconclusive=None if fam.stats["evaluations"] > 0 and calls[0] > 0 else "no callee executed")
 
 
